@@ -97,18 +97,21 @@ def parse_scenario(P, status_name="OK", endpoint="/healthz", maxlen=None):
     P.cover("code-" + code)
 
 
-def _parse(status_name, maxlen=None):
+ODD_ENDPOINT = "/health:live;v=1,ok@node%20a(1)+x"      # legal path characters that clients send unchanged
+
+
+def _parse(status_name, maxlen=None, endpoint="/healthz"):
     def scen(P):
-        return parse_scenario(P, status_name, maxlen=maxlen)
+        return parse_scenario(P, status_name, endpoint=endpoint, maxlen=maxlen)
     scen.__name__ = "parse_" + status_name
     return scen
 
 
-def replay_parse(status_name):
+def replay_parse(status_name, endpoint="/healthz"):
     def rep(label, m):
         from repid.health_check_server import HealthCheckStatus, _HttpServerProtocol
         status = HealthCheckStatus[status_name]
-        proto = _HttpServerProtocol(endpoint_name="/healthz", status=status)
+        proto = _HttpServerProtocol(endpoint_name=endpoint, status=status)
         tr = FakeTransport()
         proto.connection_made(tr)
         req = m.get("request", "")
@@ -130,7 +133,7 @@ def replay_parse(status_name):
         head, _, body = text.partition("\r\n\r\n")
         code = head.split("\r\n")[0].split(" ", 2)[1]
         line = req.split("\r\n\r\n")[0].split("\r\n")[0].split(" ")
-        want = line[0] == "GET" and line[1] == "/healthz"
+        want = line[0] == "GET" and line[1] == endpoint
         if (code == str(status.value)) != want:
             failed.append({"label": "status-code-iff-get-on-endpoint", "info": f"{req!r} answered {code}"})
         if code != str(status.value) and code != "404":
@@ -138,8 +141,8 @@ def replay_parse(status_name):
         clen = [ln.split(":")[1].strip() for ln in head.split("\r\n") if ln.lower().startswith("content-length:")]
         if clen != [str(len(body))]:
             failed.append({"label": "content-length-matches-body", "info": text})
-        if proto.status is not status:
-            failed.append({"label": "reported-status-never-changed", "info": ""})
+        if proto.status is not status or proto.endpoint_name != endpoint:
+            failed.append({"label": "reported-status-never-changed", "info": f"endpoint {proto.endpoint_name!r}"})
         return failed
     return rep
 
@@ -177,6 +180,8 @@ def h20_status(S, junk=False):
     from repid.health_check_server import HealthCheckServerSettings
 
     fails = S.flag("a_consumer_fails")
+    # the application may run with informational logging on
+    info_logging = (not junk) and S.flag("repid_logger_at_info_level")
     if junk:
         # which bytes arrive is enumerated; instants are fixed
         t_fail = Fraction(5, 1000)
@@ -252,7 +257,15 @@ def h20_status(S, junk=False):
         out["server_log"] = srv.log
         out["after_probe"] = _probe(srv, [VALID])
 
-    run_async(main)
+    import logging
+    lg = logging.getLogger("repid")
+    saved_level = lg.level
+    if info_logging:
+        lg.setLevel(logging.INFO)
+    try:
+        run_async(main)
+    finally:
+        lg.setLevel(saved_level)
     S.cover("health-run")
     S.check("worker-undisturbed-by-requests", out["worker_error"] is None and sorted(ran) == [0, 1], info=f"ran={ran} err={out['worker_error']}")
     S.check("port-open-while-the-worker-runs", out["serving_while_running"] or not out["still_running"])
@@ -403,6 +416,9 @@ HARNESSES = [
                     stubs=["bytes.decode either raises or returns an arbitrary string; transport records writes"]),
     strx.as_harness("H20-parse-unhealthy", _parse("UNHEALTHY"), replay_parse("UNHEALTHY"),
                     bounds={"request": "every decoded string", "status": "UNHEALTHY"}, covers=["answered", "code-503", "code-404"]),
+    strx.as_harness("H20-parse-odd-endpoint", _parse("OK", endpoint=ODD_ENDPOINT), replay_parse("OK", endpoint=ODD_ENDPOINT),
+                    bounds={"request": "every decoded string", "status": "OK", "endpoint setting": ODD_ENDPOINT + " (path characters : ; = , @ % ( ) + that clients send as they are)"},
+                    covers=["answered", "code-200", "code-404"]),
     Harness(name="H20-status-timing", scenario=h20_status, workers=16, budget_s=900,
             bounds={"consumer failure": "none, or at any real instant in [1, 6] ms", "probe": "one valid request at any real instant in [0, 8] ms",
                     "jobs": "2 jobs of 2 ms enqueued meanwhile"},
